@@ -16,6 +16,7 @@ PROP = "C33"
 # every obligation of this module is discharged in ~0.01 s; a short budget keeps a FAILING run (where z3 times out on each
 # refuted obligation before the bounded refutation takes over) within minutes
 TIMEOUT_MS = 3000
+SHARDS = {"sqlfluff.core.linter.linter:Linter.lint_parsed#violations-flow": 4}
 
 from .types import Sig, SQLBaseError  # noqa: E402
 
